@@ -360,7 +360,7 @@ def audit(ctx, prog, fns, justified=()):
                 for j in justified:
                     if not (fn.norm.endswith(j["fn"]) or (fn.root or "").endswith(j["fn"])):
                         continue
-                    if j.get("kind") and j["kind"] != s.kind:
+                    if j.get("kind") and (s.kind not in j["kind"] if isinstance(j["kind"], (tuple, list)) else j["kind"] != s.kind):
                         continue
                     if j.get("mac") and (s.mac or "") != j["mac"]:
                         continue
